@@ -64,6 +64,30 @@ pub fn run(o: &mut Out, seed: u64, thorough: bool, replay: Option<Vec<String>>) 
     if let Some(lines) = replay { for l in lines { replay_line(o, &l); } return; }
     let p = pools();
     let mut r = Rng::new(seed ^ 0xc03);
+    // ephemeral sweep: every lock/birth opcode x argument class (in range, zero, negative, oversized)
+    // x {alone, before an in-range relative lock, after one}, on a coin created in the same bundle and
+    // on an ordinary coin
+    {
+        let parent0 = SpendG { parent: p.ids[0], ph: p.ids[1], amount: 10, conds: vec![], term: nil() };
+        for op in [80u8, 81, 82, 83, 84, 85, 86, 87, 74, 75] {
+            let seconds = matches!(op, 80 | 81 | 84 | 85 | 74);
+            let args: Vec<T> = vec![int(5), nil(), at(&[0x80]), at(&[0xff, 0xff]),
+                if seconds { at(&[1, 0, 0, 0, 0, 0, 0, 0, 0]) } else { at(&[1, 0, 0, 0, 0]) }, int(0xffff_ffff)];
+            for arg in &args { for shape in 0..3 { for ephemeral in [true, false] { for flags in [F_DONT_VALIDATE, F_DONT_VALIDATE | F_COST | F_STRICT] {
+                let mut child = SpendG { parent: if ephemeral { parent0.coin_id() } else { p.ids[2] }, ph: p.ids[3], amount: 4, conds: vec![], term: nil() };
+                let c = pair(at(&[op]), list(vec![arg.clone()], nil()));
+                let real = pair(at(&[82]), list(vec![int(3)], nil()));
+                child.conds = match shape { 0 => vec![c], 1 => vec![c, real], _ => vec![real, c] };
+                let mut par = parent0.clone();
+                par.conds.push(pair(at(&[51]), list(vec![at(&child.ph), int(child.amount)], nil())));
+                let t = pair(list(vec![
+                    list(vec![at(&par.parent), at(&par.ph), int(par.amount), list(par.conds.clone(), nil())], nil()),
+                    list(vec![at(&child.parent), at(&child.ph), int(child.amount), list(child.conds.clone(), nil())], nil())], nil()), nil());
+                let recs = vec![(par.coin_id(), 100u32, 1000u64), (child.coin_id(), 100u32, 1000u64)];
+                emit(o, flags, true, 200, 2000, &recs, &t);
+            }}}}
+        }
+    }
     let n = if thorough { 400_000 } else { 40_000 };
     for _ in 0..n {
         let ns = r.range(1, 3) as usize;
